@@ -10,6 +10,11 @@ CHECKS = {
           "Every transition of a BFS over writer histories on a real FsStorage index is executed under libc interposition; every syscall boundary of the operation is a crash point, and for each the full set of durable directory images admitted by the durability model (unsynced writes dropped/kept/torn, unsynced directory entries lost in order) is enumerated, written back into the index directory and recovered by the real Index::open + reader + match_all; the recovered contents must equal the last acknowledged commit or the in-flight commit's complete result. Counts of states, transitions, cuts, images and real recoveries are in the evidence.",
           "Trusted: durability model M1-M4 (DESIGN §2.4) as the crash environment; the projection argument (recovery reads only MANIFEST.json, the files it names and wal.log), which is re-validated at run time by re-executing a sample of recoveries on full images.",
           "DESIGN.md §3-C01"),
+  "C02": ("model_checking",
+          "nested exhaustive crash-image enumeration (up to 2-3 crashes in a row) over histories and post-recovery scripts on the real code, WAL-queue oracle",
+          "As C01, but the recovery step is itself a history that crashes: every recovered durable image (deduplicated on image bytes, model state and remaining depth) is continued with every maximal post-recovery script over {new, add, delete, drop(sync), commit, rollback} whose every syscall boundary is again a crash point with every admissible image, 2 crashes deep (quick) / 3 (thorough). Oracle per crash: reopen succeeds; contents are the pre- or in-flight post-state; Wal::last_pending_ops is an in-order prefix of what was queued and contains every operation followed by a successful sync; new writer + commit equals the crash-free model; rolled-back operations never return.",
+          "Trusted: durability model M1-M4; queue/sync bookkeeping of the harness model (vfs::c02::MState).",
+          "DESIGN.md §3-C02"),
   "C04": ("model_checking",
           "explicit-state BFS over operation histories on the real code, canonical-state dedup, reference-model conformance at every step",
           "Breadth-first search over every history of {new,drop,add,delete,commit,rollback} x 1-3 writer handles + compact + reopen up to the stated depth; every transition re-executes the real IndexWriter/Index code on a fresh index (filesystem and in-memory storage, positions on/off) and compares a fresh reader's match_all+stored output with the per-handle-queue reference model. Shortest counterexample first; state counts per configuration in the evidence.",
